@@ -11,9 +11,9 @@ from __future__ import annotations
 import ast
 from typing import List, Optional
 
-from ..model import Program, AnalysisError, FuncInfo, walk_local, dotted
+from ..model import Program, AnalysisError, FuncInfo, walk_local, dotted, parents_of
 from ..report import RuleResult
-from ..astutil import src, site, calls_in, call_name, is_super_call, kwarg, const_value, is_self_attr
+from ..astutil import src, site, calls_in, call_name, is_super_call, kwarg, const_value, is_self_attr, enclosing_stmt
 from ..cfg import CFG
 from ..callgraph import self_closure
 
@@ -398,6 +398,40 @@ def pred_fresh(prog: Program) -> RuleResult:
         r.check(bool(projs), f"{c.name}#carried-bindings-projected", site(f, cc), src(cc), "kept bindings are projected on a fixed set of variable ids",
                 "the bindings of a condition result are carried to the next value of the quantified expression as they are: every call and attribute node of the condition "
                 "then answers with its previous result")
+        # ... and every result of an evaluation other than that of the quantified expression gives its bindings away through
+        # such a projection only (one projection somewhere in the class is not enough: each place results are taken from counts)
+        proj_iters = {id(dc.generators[0].iter) for _, dc, _ in projs}
+
+        def _unprojected(root, name):
+            """the uses of <name>.bindings under root that are not the source of a projection"""
+            bad = []
+            par = parents_of(root)
+            for a in ast.walk(root):
+                if not (isinstance(a, ast.Attribute) and a.attr == "bindings" and isinstance(a.value, ast.Name) and a.value.id == name):
+                    continue
+                up = par.get(a)
+                # <name>.bindings.items() as the source of a projection
+                if isinstance(up, ast.Attribute) and up.attr == "items":
+                    call = par.get(up)
+                    if isinstance(call, ast.Call) and id(call) in proj_iters:
+                        continue
+                bad.append(enclosing_stmt(par, a))
+            return bad
+
+        for g in fs:
+            for lp in [x for x in walk_local(g.node) if isinstance(x, ast.For)]:
+                it = lp.iter
+                if not (isinstance(it, ast.Call) and call_name(it) == "_evaluate__" and isinstance(it.func, ast.Attribute)):
+                    continue
+                if src(it.func.value) in ("self.variable", "self.left"):
+                    continue
+                if not isinstance(lp.target, ast.Name):
+                    continue
+                bad = _unprojected(lp, lp.target.id)
+                r.check(not bad, f"{c.name}.{g.name}#results-of-{src(it.func.value).replace('self.', '')}-projected", site(g, lp), src(bad[0] if bad else it)[:80],
+                        "the bindings of each result are taken through the projection on the free variable ids",
+                        f"the bindings of a result of {src(it.func.value)} are taken as they are ({src(bad[0])[:80] if bad else ''}): they hold the results of the "
+                        f"condition's call and attribute nodes, which then answer the next value of the quantified expression with the result of this one")
         for g, dc, attr in projs:
             p = prog.lookup(c.qual, attr)
             if p is None:
